@@ -62,10 +62,15 @@ def mk_traj_prediction(F, p, t0=1):
     return F.new(TrajectoryPrediction, mk_trajectory(F, p + "tr_", t0), F.new(Rectangle, l, w))
 
 
-def local_rect(F, p):
+def local_rect(F, p, offset=True):
+    """obstacle shape in the local frame; the reference point need not be the geometric centre (e.g. rear-axle reference)"""
     l, w = F.real(p + "l"), F.real(p + "w")
     F.assume(z3.And(R(l) > 0, R(w) > 0))
-    return F.new(Rectangle, l, w)
+    if not offset:
+        return F.new(Rectangle, l, w)
+    th = F.real(p + "local_theta")
+    F.assume(z3.And(R(th) >= -TWO_PI, R(th) <= TWO_PI))
+    return F.new(Rectangle, l, w, F.array([F.real(p + "local_cx"), F.real(p + "local_cy")]), th)
 
 
 def mk_static(F, p, oid=10):
